@@ -92,6 +92,11 @@ class Ctx(object):
     def oblige(self, name, goal, where='', kind='post'):
         self.obligations.append(Obligation(name, self.facts, _t(goal), where, kind))
 
+    def cut(self, name, lemma, where=''):
+        """intermediate lemma: proved here as an obligation of its own (from the facts so far), then available to what follows"""
+        self.oblige(name, lemma, where, 'post')
+        self.facts.append(_t(lemma))
+
     def branch(self, cond, label=''):
         """decide a symbolic condition; returns a Python bool; schedules the other side"""
         if isinstance(cond, bool):
